@@ -328,11 +328,20 @@ fn run_t<T: Elem>(case: &mut Case) -> Result<Outcome, String> {
         band_entries_eq(&(&b1 + &bd), &zip_band(&a, &d, |p, q| p + q), n, m1, m2, "&B + &D")?;
         band_entries_eq(&(b1.clone() + bd.clone()), &zip_band(&a, &d, |p, q| p + q), n, m1, m2, "B + D")?;
         band_entries_eq(&(&b1 - &bd), &zip_band(&a, &d, |p, q| p - q), n, m1, m2, "&B - &D")?;
+        band_entries_eq(&(&b1 + &b1), &zip_band(&a, &a, |p, q| p + q), n, m1, m2, "&B + &B (same object)")?;
+        band_entries_eq(&(&b1 - &b1), &zip_band(&a, &a, |p, q| p - q), n, m1, m2, "&B - &B (same object)")?;
         band_entries_eq(&(b1.clone() - bd.clone()), &zip_band(&a, &d, |p, q| p - q), n, m1, m2, "B - D")?;
         band_entries_eq(&(-&b1), &map_band(&a, n, m1, m2, |p| -p), n, m1, m2, "-&B")?;
         band_entries_eq(&(-b1.clone()), &map_band(&a, n, m1, m2, |p| -p), n, m1, m2, "-B")?;
         band_entries_eq(&(&b1 * s), &map_band(&a, n, m1, m2, |p| p * s), n, m1, m2, "&B * s")?;
         band_entries_eq(&(b1.clone() * s), &map_band(&a, n, m1, m2, |p| p * s), n, m1, m2, "B * s")?;
+        if !T::EXACT {
+            let bs = &b1 * snz;
+            band_entries_eq(&(&bs / snz), &a, n, m1, m2, "(&B * s) / s")?;
+            let mut t = bs.clone();
+            t /= snz;
+            band_entries_eq(&t, &a, n, m1, m2, "(B * s) /= s")?;
+        }
         if T::EXACT {
             band_entries_eq(&(&b1 / snz), &map_band(&a, n, m1, m2, |p| p / snz), n, m1, m2, "&B / s")?;
             band_entries_eq(&(b1.clone() / snz), &map_band(&a, n, m1, m2, |p| p / snz), n, m1, m2, "B / s")?;
